@@ -1,17 +1,39 @@
 // C06 harness: compiler success implies valid, well-typed Go output.
-// Search machinery (not proof): generated valid XGo programs (every sugar), near-miss mutants,
-// corpus and mutated corpus; the REAL cl.NewPackage decides success; the written Go must parse
+// Search machinery (not proof).  The REAL cl.NewPackage decides success; the written Go must parse
 // (go/parser), type-check (go/types, export data, offline) and - for a sample in quick, all in
-// thorough - `go build`.
+// thorough - compile with gc.
+//
+// Two input streams:
+//
+//	V  valid-by-construction XGo programs (every sugar piece alone, then random combinations driven
+//	   by VERIF_SEED).  A compile success whose Go is rejected is a violation keyed finely:
+//	   success-bad-go:<judge>:<class> etc.
+//	M  a FIXED regression list of near-miss mutants and corpus packages, frozen in
+//	   corpus/C06/stream_m.jsonl.gz (seed-independent; quick = its first N entries, thorough = all).
+//	   XGo's partial static checking (gogen) accepts many of these although Go rejects them; the
+//	   outcome of the unchanged tree is the committed baseline corpus/C06/known_bad_accepts.txt
+//	   (id, class).  A stream-M case is a violation iff XGo accepts it, Go rejects the output and
+//	   (id, class) is NOT in the baseline (key new-bad-accept:<class>:<id>); baseline hits are
+//	   reported under gogen-lacks-check:<class> (one known finding per class).
+//
+// Maintenance (not run by the check):  c06 -mkstream <dir> -out <scratch>   regenerates both files
+// from the current generators/corpus and the current tree.
 package main
 
 import (
+	"bufio"
 	"bytes"
+	"compress/gzip"
+	"crypto/sha1"
+	"encoding/hex"
+	"encoding/json"
+	"flag"
 	"fmt"
 	"os"
 	"os/exec"
 	"path/filepath"
 	"regexp"
+	"sort"
 	"strings"
 	"time"
 
@@ -21,122 +43,61 @@ import (
 
 var env *compa.Env
 
+// ------------------------------------------------------------------------------- judging
+
+// verdict of one package: "" (XGo rejected it, or accepted with good Go) or "<judge>:<class>".
+type verdict struct {
+	status string // PARSE-ERR | NOPKG | PANIC | ERR | OK | OK-BAD
+	class  string // for OK-BAD: e.g. "go-types:missing-return", "write-panics:…", "write-fails:…"
+	msg    string
+	src    []byte // written Go when status == OK
+}
+
+func judge(fs compa.Files) verdict {
+	p := compa.Parse(fs)
+	if p.Panic != "" || p.Err != nil {
+		return verdict{status: "PARSE-ERR"}
+	}
+	pkg := compa.MainPkg(p.Pkgs)
+	if pkg == nil {
+		return verdict{status: "NOPKG"}
+	}
+	c := env.Compile(p.Fset, pkg, false)
+	switch {
+	case c.Panic != "":
+		return verdict{status: "PANIC", msg: c.Panic} // C07's oracle, not C06's
+	case c.Err != nil:
+		return verdict{status: "ERR", msg: c.Err.Error()}
+	case c.WPanic != "":
+		return verdict{status: "OK-BAD", class: "write-panics:" + compa.KeyOnly(c.WPanic), msg: c.WPanic}
+	case c.WriteErr != nil:
+		return verdict{status: "OK-BAD", class: "write-fails:" + compa.ErrClass(c.WriteErr.Error()), msg: c.WriteErr.Error()}
+	}
+	if class, msg := env.GoCheck(c.Src, fs); class != "" {
+		return verdict{status: "OK-BAD", class: class, msg: msg}
+	}
+	return verdict{status: "OK", src: c.Src}
+}
+
+// ------------------------------------------------------------------------------- gc stage
+
 type built struct {
 	caseLine string
+	id       string // stream M id ("" = stream V)
 	src      []byte
 	fs       compa.Files
 }
 
 var toBuild []built
 
-// judgeKey re-evaluates one package in-process and returns the oracle key ("" = no violation);
-// used by the shrinker.
-func judgeKey(fs compa.Files) string {
-	p := compa.Parse(fs)
-	if p.Panic != "" || p.Err != nil {
-		return ""
-	}
-	pkg := compa.MainPkg(p.Pkgs)
-	if pkg == nil {
-		return ""
-	}
-	c := env.Compile(p.Fset, pkg, false)
-	switch {
-	case c.Panic != "" || c.Err != nil:
-		return ""
-	case c.WPanic != "":
-		return "success-write-panics:" + compa.KeyOnly(c.WPanic)
-	case c.WriteErr != nil:
-		return "success-write-fails:" + compa.ErrClass(c.WriteErr.Error())
-	}
-	if class, _ := env.GoCheck(c.Src, fs); class != "" {
-		return "success-bad-go:" + class
-	}
-	return ""
-}
-
-var shrunk = map[string]bool{}
-
-// report records an oracle failure; the first instance of each key is shrunk (lines dropped
-// while the same key persists).
-func report(o *vh.Out, key string, fs compa.Files, detail string) {
-	if !shrunk[key] && !strings.HasPrefix(key, "success-go-build-fails") {
-		shrunk[key] = true
-		fs = compa.DDMin(fs, 80, func(t compa.Files) bool { return judgeKey(t) == key })
-	}
-	o.Oracle(key, "c06\t"+compa.Blob(fs), detail)
-}
-
-func runCase(o *vh.Out, fs compa.Files, origin string, wantBuild bool) {
-	caseLine := "c06\t" + compa.Blob(fs)
-	p := compa.Parse(fs)
-	if p.Panic != "" {
-		o.Count("skip_parser_panic")
-		o.Case(caseLine, "PARSE-PANIC", false)
-		return
-	}
-	if p.Err != nil {
-		if os.Getenv("COMPA_DEBUG") != "" {
-			fmt.Fprintf(os.Stderr, "PARSE-ERR %s: %v\n", origin, p.Err)
-		}
-		o.Count("skip_parse_error")
-		o.Case(caseLine, "PARSE-ERR", false)
-		return
-	}
-	pkg := compa.MainPkg(p.Pkgs)
-	if pkg == nil {
-		o.Count("skip_no_package")
-		o.Case(caseLine, "NOPKG", false)
-		return
-	}
-	c := env.Compile(p.Fset, pkg, false)
-	switch {
-	case c.Panic != "":
-		o.Count("compile_escaped_panic") // C07's oracle, not C06's
-		o.Case(caseLine, "PANIC "+compa.KeyOnly(c.Panic), true)
-		return
-	case c.Err != nil:
-		if os.Getenv("COMPA_DEBUG") != "" {
-			fmt.Fprintf(os.Stderr, "ERR %s: %v\n", origin, c.Err)
-		}
-		o.Count("compile_error")
-		o.Count("errclass_" + compa.ErrClass(c.Err.Error()))
-		o.Case(caseLine, "ERR", true)
-		return
-	case c.WPanic != "":
-		o.Count("compile_ok")
-		report(o, "success-write-panics:"+compa.KeyOnly(c.WPanic), fs, origin+": "+c.WPanic)
-		o.Case(caseLine, "OK-WRITEPANIC", true)
-		return
-	case c.WriteErr != nil:
-		// success reported but the output cannot even be written
-		o.Count("compile_ok")
-		report(o, "success-write-fails:"+compa.ErrClass(c.WriteErr.Error()), fs, origin+": "+c.WriteErr.Error())
-		o.Case(caseLine, "OK-WRITEERR", true)
-		return
-	}
-	o.Count("compile_ok")
-	o.Count("ok_from_" + strings.SplitN(origin, ":", 2)[0])
-	class, msg := env.GoCheck(c.Src, fs)
-	if class != "" {
-		report(o, "success-bad-go:"+class, fs, origin+": "+msg)
-		o.Case(caseLine, "OK-BADGO "+class, true)
-		return
-	}
-	if wantBuild {
-		toBuild = append(toBuild, built{caseLine, c.Src, fs})
-	}
-	o.Case(caseLine, "OK", true)
-}
-
 var buildErrRe = regexp.MustCompile(`(?m)^(?:\./)?p\d+/[^:\s]+:\d+:\d+: (.*)$`)
 
 // buildAll compiles every queued output with the Go toolchain (gc), all in one
-// `go list -e -export ./...` (compile only: nothing is linked or run; link-time needs of
-// llgo/C demo programs are outside the property).
-func buildAll(o *vh.Out, dir string) {
+// `go list -e -export ./...` (compile only: nothing is linked or run).  Returns index -> class.
+func buildAll(o *vh.Out, dir string) map[int][2]string {
+	res := map[int][2]string{}
 	if len(toBuild) == 0 {
-		return
+		return res
 	}
 	compa.WriteModule(dir)
 	for i, b := range toBuild {
@@ -177,12 +138,13 @@ func buildAll(o *vh.Out, dir string) {
 			o.Count("go_build_skipped_not_about_output")
 			continue // an artefact of building outside /repo, or an error in the package's own Go files
 		}
-		o.Oracle("success-go-build-fails:"+compa.ErrClass(first), toBuild[i].caseLine, firstN(msg, 300))
+		res[i] = [2]string{"gc:" + compa.ErrClass(first), firstN(msg, 300)}
 	}
 	if n != len(toBuild) {
 		fmt.Fprintf(os.Stderr, "go list -export: %v: %d of %d packages listed\n%s\n", err, n, len(toBuild), firstN(serr.String(), 2000))
 		os.Exit(3)
 	}
+	return res
 }
 
 func firstN(s string, n int) string {
@@ -192,71 +154,95 @@ func firstN(s string, n int) string {
 	return s
 }
 
-func main() {
-	f := vh.ParseFlags()
-	o := vh.NewOut(f.Out)
-	defer o.Close()
-	var err error
-	t0 := time.Now()
-	corpus := compa.LoadCorpus(true)
-	env, err = compa.NewEnv(filepath.Join(f.Out, "env"), append(compa.ImportPaths(corpus), "nosuch/pkg")...)
-	tick := func(what string) {
-		if os.Getenv("COMPA_DEBUG") != "" {
-			fmt.Fprintf(os.Stderr, "[%6.1fs] %s\n", time.Since(t0).Seconds(), what)
-		}
-	}
-	tick("env ready")
-	if err != nil {
-		fmt.Fprintln(os.Stderr, "env:", err)
-		os.Exit(2)
-	}
-	if f.Replay != "" {
-		fs := strings.SplitN(f.Replay, "\t", 2)
-		if len(fs) == 2 {
-			runCase(o, compa.UnBlob(fs[1]), "replay", true)
-			buildAll(o, filepath.Join(f.Out, "build"))
-		}
-		return
-	}
-	thorough := f.Tier == "thorough"
-	r := vh.NewRand(f.Seed)
-	buildEvery := 12
-	if thorough {
-		buildEvery = 1
-	}
-	nb := 0
-	wantBuild := func() bool { nb++; return nb%buildEvery == 0 }
+// ------------------------------------------------------------------------------- stream M files
 
-	// 0. every sugar piece alone (coverage floor: each sugar compiled at least once per run)
-	for i, name := range compa.PieceNames() {
-		fs, _ := compa.GenXGo(r.Fork(1000000+i), 1, name)
-		runCase(o, fs, "piece:"+name, true)
+type mEntry struct {
+	ID     string            `json:"id"`
+	Origin string            `json:"origin"`
+	Files  map[string]string `json:"files"`
+}
+
+func idOf(fs compa.Files) string {
+	h := sha1.Sum([]byte(compa.Blob(fs)))
+	return hex.EncodeToString(h[:6])
+}
+
+func readStream(dir string, max int) ([]mEntry, error) {
+	f, err := os.Open(filepath.Join(dir, "stream_m.jsonl.gz"))
+	if err != nil {
+		return nil, err
 	}
-	if os.Getenv("COMPA_DEBUG") == "pieces" {
-		return
+	defer f.Close()
+	zr, err := gzip.NewReader(f)
+	if err != nil {
+		return nil, err
 	}
-	o.Stats["corpus_items"] = len(corpus)
-	nearMiss := []string{"ident-swap", "ident-undefined", "type-swap", "lit-swap", "drop-arg", "add-arg", "drop-line", "dup-line",
-		"drop-return", "define-assign", "lhs-count", "unused-var", "unused-import", "op-swap", "dup-decl", "dup-case"}
-	// 1. corpus as is (a rotating slice in quick, all in thorough)
-	for i, it := range corpus {
-		if thorough || (i+int(f.Seed))%4 == 0 {
-			runCase(o, it.Files, "corpus:"+it.Origin, wantBuild())
+	var out []mEntry
+	sc := bufio.NewScanner(zr)
+	sc.Buffer(make([]byte, 1<<20), 16<<20)
+	for sc.Scan() {
+		if max > 0 && len(out) >= max {
+			break
+		}
+		var e mEntry
+		if err := json.Unmarshal(sc.Bytes(), &e); err != nil {
+			return nil, err
+		}
+		out = append(out, e)
+	}
+	return out, sc.Err()
+}
+
+// baseline: "id class" pairs accepted-but-bad on the unchanged tree.
+func readBaseline(dir string) (map[string]bool, error) {
+	b, err := os.ReadFile(filepath.Join(dir, "known_bad_accepts.txt"))
+	if err != nil {
+		return nil, err
+	}
+	m := map[string]bool{}
+	for _, ln := range strings.Split(string(b), "\n") {
+		if ln == "" || strings.HasPrefix(ln, "#") {
+			continue
+		}
+		fs := strings.SplitN(ln, "\t", 3)
+		if len(fs) >= 2 {
+			m[fs[0]+" "+fs[1]] = true
 		}
 	}
-	tick("corpus done")
-	// 2. generated programs and their near-miss mutants; mutated corpus
-	for i := 0; i < f.N; i++ {
+	return m, nil
+}
+
+var nearMiss = []string{"ident-swap", "ident-undefined", "type-swap", "lit-swap", "drop-arg", "add-arg", "drop-line", "dup-line",
+	"drop-return", "define-assign", "lhs-count", "unused-var", "unused-import", "op-swap", "dup-decl", "dup-case"}
+
+const streamSeed = 20260921 // constant: stream M never depends on VERIF_SEED
+
+// mkStream builds the fixed list: every 4th entry a corpus package as is (until exhausted),
+// the others near-miss mutants of generated programs (2/3) and of corpus packages (1/3).
+func mkStream(total int) []mEntry {
+	corpus := compa.LoadCorpus(true)
+	r := vh.NewRand(streamSeed)
+	var out []mEntry
+	seen := map[string]bool{}
+	add := func(fs compa.Files, origin string) {
+		id := idOf(fs)
+		if seen[id] {
+			return
+		}
+		seen[id] = true
+		out = append(out, mEntry{ID: id, Origin: origin, Files: fs})
+	}
+	ci := 0
+	for i := 0; len(out) < total && i < total*3; i++ {
 		rr := r.Fork(i)
 		switch {
-		case i%4 == 0:
-			fs, pcs := compa.GenXGo(rr, 1+rr.Intn(4), "")
-			runCase(o, fs, "gen:"+strings.Join(pcs, "+"), wantBuild())
-		case i%4 == 1 || i%4 == 2:
+		case i%4 == 0 && ci < len(corpus):
+			add(corpus[ci].Files, "corpus:"+corpus[ci].Origin)
+			ci++
+		case i%3 != 0:
 			fs, pcs := compa.GenXGo(rr, 1+rr.Intn(3), "")
 			mf, kinds := compa.MutateFiles(rr, fs, nearMiss, 1+rr.Intn(2), "")
-			o.Count("mut_" + strings.SplitN(kinds, "+", 2)[0])
-			runCase(o, mf, "genmut:"+strings.Join(pcs, "+")+"/"+kinds, wantBuild())
+			add(mf, "genmut:"+strings.Join(pcs, "+")+"/"+kinds)
 		default:
 			it := corpus[rr.Intn(len(corpus))]
 			other := corpus[rr.Intn(len(corpus))]
@@ -270,12 +256,241 @@ func main() {
 				kinds = append(append([]string{}, nearMiss...), "splice", "swap-tokens", "dup-span")
 			}
 			mf, ks := compa.MutateFiles(rr, it.Files, kinds, 1+rr.Intn(2), osrc)
-			o.Count("mut_" + strings.SplitN(ks, "+", 2)[0])
-			runCase(o, mf, "corpusmut:"+it.Origin+"/"+ks, wantBuild())
+			add(mf, "corpusmut:"+it.Origin+"/"+ks)
 		}
 	}
-	tick("cases done")
-	buildAll(o, filepath.Join(f.Out, "build"))
+	return out
+}
+
+func firstSrcLine(fs compa.Files) string {
+	for _, n := range fs.Names() {
+		if !strings.HasSuffix(n, ".go") || len(fs) == 1 {
+			for _, l := range strings.Split(fs[n], "\n") {
+				if t := strings.TrimSpace(l); t != "" {
+					return n + ": " + firstN(t, 100)
+				}
+			}
+		}
+	}
+	return ""
+}
+
+// maintenance: regenerate stream_m.jsonl.gz + known_bad_accepts.txt from the current tree.
+func runMkStream(o *vh.Out, dir, scratch string, total int) {
+	os.MkdirAll(dir, 0o755)
+	entries := mkStream(total)
+	f, err := os.Create(filepath.Join(dir, "stream_m.jsonl.gz"))
+	if err != nil {
+		panic(err)
+	}
+	zw, _ := gzip.NewWriterLevel(f, gzip.BestCompression)
+	for _, e := range entries {
+		b, _ := json.Marshal(e)
+		zw.Write(b)
+		zw.Write([]byte("\n"))
+	}
+	zw.Close()
+	f.Close()
+	type row struct{ id, class, first string }
+	var rows []row
+	perClass := map[string]int{}
+	for _, e := range entries {
+		fs := compa.Files(e.Files)
+		v := judge(fs)
+		switch v.status {
+		case "OK-BAD":
+			rows = append(rows, row{e.ID, v.class, firstSrcLine(fs)})
+			perClass[v.class]++
+		case "OK":
+			toBuild = append(toBuild, built{id: e.ID, src: v.src, fs: fs})
+		}
+	}
+	for i, cm := range buildAll(o, filepath.Join(scratch, "build")) {
+		rows = append(rows, row{toBuild[i].id, cm[0], firstSrcLine(toBuild[i].fs)})
+		perClass[cm[0]]++
+	}
+	var b strings.Builder
+	b.WriteString("# C06 baseline of the FIXED stream M (corpus/C06/stream_m.jsonl.gz): packages that the unchanged XGo compiler\n")
+	b.WriteString("# accepts although Go rejects the written output.  id <TAB> class <TAB> first source line.  Regenerate with\n")
+	b.WriteString("#   c06 -mkstream /verif/corpus/C06 -out <scratch>      (maintenance; never at check time)\n")
+	for _, r := range rows {
+		fmt.Fprintf(&b, "%s\t%s\t%s\n", r.id, r.class, r.first)
+	}
+	os.WriteFile(filepath.Join(dir, "known_bad_accepts.txt"), []byte(b.String()), 0o644)
+	var classes []string
+	for c := range perClass {
+		classes = append(classes, c)
+	}
+	sort.Strings(classes)
+	fmt.Printf("stream M: %d entries, %d bad accepts\n", len(entries), len(rows))
+	for _, c := range classes {
+		fmt.Printf("finding: property=C06 key=gogen-lacks-check:%s gogen (outside /repo) does not implement the Go static check behind \"%s\": XGo accepts, Go rejects the written output; %d fixed inputs listed in corpus/C06/known_bad_accepts.txt (stream M); not repaired: the check belongs in gogen\n", c, c, perClass[c])
+	}
+}
+
+// ------------------------------------------------------------------------------- main
+
+func main() {
+	mk := flag.String("mkstream", "", "MAINTENANCE: regenerate the fixed stream M and its baseline into this directory")
+	mdir := flag.String("c06dir", "/verif/corpus/C06", "directory of stream_m.jsonl.gz and known_bad_accepts.txt")
+	f := vh.ParseFlags()
+	o := vh.NewOut(f.Out)
+	defer o.Close()
+	t0 := time.Now()
+	tick := func(what string) {
+		if os.Getenv("COMPA_DEBUG") != "" {
+			fmt.Fprintf(os.Stderr, "[%6.1fs] %s\n", time.Since(t0).Seconds(), what)
+		}
+	}
+	var err error
+	if *mk != "" {
+		corpus := compa.LoadCorpus(true)
+		env, err = compa.NewEnv(filepath.Join(f.Out, "env"), append(compa.ImportPaths(corpus), "nosuch/pkg")...)
+		if err != nil {
+			fmt.Fprintln(os.Stderr, "env:", err)
+			os.Exit(2)
+		}
+		runMkStream(o, *mk, f.Out, 7000)
+		return
+	}
+	thorough := f.Tier == "thorough"
+	nM := 1500
+	if thorough {
+		nM = 0 // all
+	}
+	var stream []mEntry
+	if f.Replay == "" {
+		stream, err = readStream(*mdir, nM)
+		if err != nil {
+			fmt.Fprintln(os.Stderr, "stream M:", err)
+			os.Exit(2)
+		}
+	}
+	baseline, err := readBaseline(*mdir)
+	if err != nil {
+		fmt.Fprintln(os.Stderr, "baseline:", err)
+		os.Exit(2)
+	}
+	var items []compa.Item
+	for _, e := range stream {
+		items = append(items, compa.Item{Files: e.Files})
+	}
+	env, err = compa.NewEnv(filepath.Join(f.Out, "env"), append(compa.ImportPaths(items), "nosuch/pkg")...)
+	if err != nil {
+		fmt.Fprintln(os.Stderr, "env:", err)
+		os.Exit(2)
+	}
+	tick("env ready")
+
+	shrunk := map[string]bool{}
+	// stream V: a bad accept is a violation keyed by judge+class; first instance of a key is shrunk
+	caseV := func(fs compa.Files, origin string, wantBuild bool) {
+		caseLine := "c06\t" + compa.Blob(fs)
+		v := judge(fs)
+		o.Count("V_" + v.status)
+		if v.status == "ERR" && os.Getenv("COMPA_DEBUG") != "" {
+			fmt.Fprintf(os.Stderr, "V ERR %s: %s\n", origin, v.msg)
+		}
+		if v.status == "OK-BAD" {
+			key := "success-bad-go:" + v.class
+			if strings.HasPrefix(v.class, "write-") {
+				key = "success-" + v.class
+			}
+			if !shrunk[key] {
+				shrunk[key] = true
+				fs = compa.DDMin(fs, 80, func(t compa.Files) bool { w := judge(t); return w.status == "OK-BAD" && w.class == v.class })
+			}
+			o.Oracle(key, "c06\t"+compa.Blob(fs), origin+": "+v.msg)
+		}
+		if v.status == "OK" && wantBuild {
+			toBuild = append(toBuild, built{caseLine: caseLine, src: v.src, fs: fs})
+		}
+		o.Case(caseLine, v.status, v.status != "PARSE-ERR" && v.status != "NOPKG")
+	}
+	// stream M: baseline lookup by (id, class)
+	reportM := func(id, class, caseLine, detail string) {
+		if baseline[id+" "+class] {
+			o.Count("M_baseline_hit")
+			o.Oracle("gogen-lacks-check:"+class, caseLine, "stream M id "+id+" (listed in corpus/C06/known_bad_accepts.txt): "+detail)
+			return
+		}
+		o.Oracle("new-bad-accept:"+class+":"+id, caseLine, "stream M id "+id+" is accepted by XGo, rejected by Go, and NOT in the baseline: "+detail)
+	}
+	caseM := func(e mEntry, wantBuild bool) {
+		fs := compa.Files(e.Files)
+		caseLine := "c06\t" + compa.Blob(fs)
+		v := judge(fs)
+		o.Count("M_" + v.status)
+		if v.status == "OK-BAD" {
+			reportM(e.ID, v.class, caseLine, e.Origin+": "+v.msg)
+		}
+		if v.status == "OK" && wantBuild {
+			toBuild = append(toBuild, built{caseLine: caseLine, id: e.ID, src: v.src, fs: fs})
+		}
+		o.Case(caseLine, v.status, v.status != "PARSE-ERR" && v.status != "NOPKG")
+	}
+	finishBuilds := func() {
+		for i, cm := range buildAll(o, filepath.Join(f.Out, "build")) {
+			b := toBuild[i]
+			if b.id != "" {
+				reportM(b.id, cm[0], b.caseLine, cm[1])
+			} else {
+				o.Oracle("success-go-build-fails:"+strings.TrimPrefix(cm[0], "gc:"), b.caseLine, cm[1])
+			}
+		}
+	}
+
+	if f.Replay != "" {
+		fs := strings.SplitN(f.Replay, "\t", 2)
+		if len(fs) == 2 {
+			files := compa.UnBlob(fs[1])
+			id := idOf(files)
+			// a replayed package is judged as stream M if its id is in the baseline, else as stream V
+			inBase := false
+			for k := range baseline {
+				if strings.HasPrefix(k, id+" ") {
+					inBase = true
+				}
+			}
+			if inBase {
+				caseM(mEntry{ID: id, Origin: "replay", Files: files}, true)
+			} else {
+				caseV(files, "replay", true)
+			}
+			finishBuilds()
+		}
+		return
+	}
+
+	r := vh.NewRand(f.Seed)
+	buildEvery := 12
+	if thorough {
+		buildEvery = 1
+	}
+	nb := 0
+	wantBuild := func() bool { nb++; return nb%buildEvery == 0 }
+
+	// ---- stream V
+	for i, name := range compa.PieceNames() {
+		fs, _ := compa.GenXGo(r.Fork(1000000+i), 1, name)
+		caseV(fs, "piece:"+name, true)
+	}
+	if os.Getenv("COMPA_DEBUG") == "pieces" {
+		return
+	}
+	for i := 0; i < f.N; i++ {
+		rr := r.Fork(i)
+		fs, pcs := compa.GenXGo(rr, 1+rr.Intn(4), "")
+		caseV(fs, "gen:"+strings.Join(pcs, "+"), wantBuild())
+	}
+	tick("stream V done")
+	// ---- stream M (fixed list)
+	for _, e := range stream {
+		caseM(e, wantBuild())
+	}
+	o.Stats["stream_M_entries"] = len(stream)
+	tick("stream M done")
+	finishBuilds()
 	tick("build done")
 	o.Stats["golist_slow_path"] = env.NList
 }
